@@ -229,6 +229,30 @@ func runC11(w *World, r *Report) {
 			r.check(listOK, "forward-after-accept", row.handler+"/list-from-set", lineOf(w, fw.c), "the outgoing gossiper list is the verified set plus self", "list not rebuilt from the set before forwarding")
 		}
 	}
+	// the seen-memory is asked about the item at hand and about nothing else: the two endpoints share one memory, keyed
+	// by the raw hash, so a question about another hash (the transaction a vertex carries) is answered by the other
+	// endpoint's marks
+	r.rule("seen-question-is-about-the-item", "every HasHash reachable from a gossip handler is given the hash of the item that handler processes (vertex hash in GossipVrx, transaction hash in GossipTrx)", 2)
+	for _, row := range gossipRows {
+		f := w.fx(r, "gossip", "gossiper", row.handler)
+		if f == nil {
+			continue
+		}
+		rb := row.bound(f.fn)
+		n, bad := 0, ""
+		for _, d := range deepCalls(f.fn, func(c ssa.CallInstruction) bool { return strings.HasSuffix(calleeName(c), ").HasHash") }, deepDepth) {
+			_, a := callArgs(d.c)
+			if len(a) == 0 {
+				continue
+			}
+			n++
+			if p := d.path(a[0]); p != rb.item+".Hash" {
+				bad += fmt.Sprintf(" HasHash(%s) at %s;", p, lineOf(w, d.c))
+			}
+		}
+		r.check(n > 0 && bad == "", "seen-question-is-about-the-item", row.handler, w.Pos(f.fn.Pos()), "the duplicate memory is consulted for "+rb.item+".Hash only", bad)
+	}
+
 	// membership is edited by joining, never by carrying messages: an item an honest peer refuses (parent not yet there,
 	// duplicate) says nothing about the peer, and a peer that was dropped from the table is never forwarded to again
 	membershipNotEditedByForwarding(w, r, "membership-not-edited-by-forwarding")
